@@ -8,6 +8,5 @@ CC_EXTRA=""; for a in "$@"; do CC_EXTRA="$CC_EXTRA -ccopt $a"; done
 gcc -O1 -g -I$(ocamlfind ocamlc -where) -I/repo/reproc/include -I/verif/harness/stubs -c /verif/harness/stubs/sim_libc.c -o $B/sim_libc.o
 gcc -O1 -g -I$(ocamlfind ocamlc -where) -I/repo/reproc/include -I/verif/harness/stubs -c /verif/harness/stubs/drv.c -o $B/drv.o
 cd $B
-MODS="model.mli model.ml glue.ml show.ml scn.ml impl.ml"
-[ -f fam.ml ] && MODS="$MODS fam.ml"
+MODS="model.mli model.ml glue.ml show.ml scn.ml impl.ml mon.ml fam.ml"
 ocamlfind ocamlopt -O2 -w -a -package unix -linkpkg $MODS main.ml $B/sim_libc.o $B/drv.o $(cat $IMPL/objs.txt) $CC_EXTRA -o $EXE 2>&1
